@@ -137,6 +137,12 @@ class BaseCustomModel(Model):
             ret_grad = ret_grad + tf.stack(grads)
         return ret, ret_grad
 
+    def grad_hessp_batch(self, p, data, mcdata, weight, mc_weight):
+        """Hessian-vector product of this likelihood (not of the default one)."""
+        return self._grad_hessp_from_hessian(
+            p, data, mcdata, weight, mc_weight
+        )
+
     def nll_grad_hessian(
         self, data, mcdata, weight=1.0, batch=24000, bg=None, mc_weight=1.0
     ):
